@@ -391,6 +391,7 @@ class C05(Check):
                             "reported": [(r["t"], r["links"][c["link"]][0]) for r in tr.rows[:8]]})
         B.finish()
         ctx.cov["driver_requests"] = len(B.lines)
+        ctx.cov["curve_lookup_mode"] = K.probe_mode()
         known = {k.get("key") for k in vlib.load_known_findings()["findings"] if k.get("property") == "C05"}
         if broken and not [f for f in failures if f.key not in known]:
             # vlib only searches when no failure at all was found; known findings must not suppress the search
